@@ -17,8 +17,11 @@ hs = [
       inputs="2 paths of 1..=3 components over two names, all combinations satisfying the documented precondition (no path a proper prefix of another)", bound="unwind 6; paths <= 3 components"),
     H(P + "c42_history_3_nofail", tier="thorough", timeout=3000, mem=28, covers=2,
       desc="same for three calls", inputs="3 paths of 1..=3 components over two names", bound="unwind 6"),
+    H(P + "c42_rejected_2_paths", timeout=1500, mem=16, covers=2,
+      desc="histories in which the delegate rejects one push() and/or one push_directory(): current() stays root joined with current_relative(), and after a successful call both are the last path",
+      inputs="2 paths as above; rejection schedule symbolic (call numbers 1..=7)", bound="unwind 6"),
     H(P + "c42_known_rejected_2", timeout=1500, mem=16, covers=0, expect="known_finding", finding="C42-F10",
-      desc="histories in which the delegate rejects one push() and/or one push_directory() (symbolic call numbers)", inputs="2 paths as above; rejection schedule symbolic", bound="unwind 6"),
+      desc="the push_directory/pop_directory balance in histories with a rejected push() and/or push_directory() (symbolic call numbers)", inputs="2 paths as above; rejection schedule symbolic", bound="unwind 6"),
 ]
 
 SPEC = {
@@ -30,7 +33,7 @@ SPEC = {
     "functions": ["gix_fs::Stack::{new, make_relative_path_current, current, current_relative} - the verbatim text of gix-fs/src/stack.rs and the Stack struct of gix-fs/src/lib.rs, regenerated from /repo on every run and compiled against a shim of the std::path / std::io items it uses"],
     "bounds": "histories of 2 (3 thorough) calls; relative paths of 1..=3 components over two distinct names; empty root",
     "outside": ["std::path semantics themselves (component splitting, separators, prefixes): replaced by the shim, where a path is a sequence of component ids",
-                "the delegates of gix-worktree (attribute/ignore stacks) and their I/O", "histories with rejected pushes, beyond being recorded as known finding C42-F10", "longer histories and deeper paths",
+                "the delegates of gix-worktree (attribute/ignore stacks) and their I/O", "the notification balance in histories with rejected pushes, beyond being recorded as known finding C42-F10 (path consistency in those histories IS checked)", "longer histories and deeper paths",
                 "paths that are used as a file in one call and as a directory in another (excluded by the function's documented precondition)"],
     "assumptions": ["the shim (harness/h-slice/src/c42_shim.rs.in) implements components()/push()/pop()/as_os_str().is_empty()/== with std's meaning for normalized relative paths",
                     "paths are terminal (documented precondition of make_relative_path_current)"],
